@@ -75,7 +75,12 @@ def run_subprocess(text: str, argv: list[str], channel: str):
     return cp.stdout.decode("utf-8", "replace"), cp.returncode
 
 
-def run_inprocess(text: str, argv: list[str], channel: str):
+DECOY = "{\n  decoy = 1;\n}\n"
+
+
+def run_inprocess(text: str, argv: list[str], channel: str, form: str = "after-command"):
+    """form: where `-f FILE` stands - after-command (documented), at-end, before-command.  In the
+    file channel stdin always holds a decoy document: reading it instead of FILE shows."""
     from nix_manipulator.cli.main import main
     out = io.StringIO()
     err = io.StringIO()
@@ -86,7 +91,13 @@ def run_inprocess(text: str, argv: list[str], channel: str):
             fd, path = tempfile.mkstemp(suffix=".nix", prefix="nmverif-c16-")
             with os.fdopen(fd, "w", encoding="utf-8", newline="") as fh:
                 fh.write(text)
-            full = [argv[0], "-f", path] + argv[1:]
+            if form == "at-end":
+                full = list(argv) + ["-f", path]
+            elif form == "before-command":
+                full = ["-f", path] + list(argv)
+            else:
+                full = [argv[0], "-f", path] + argv[1:]
+            sys.stdin = io.StringIO(DECOY)
         else:
             sys.stdin = io.StringIO(text)
             full = list(argv)
@@ -221,10 +232,20 @@ def run_shard(spec):
         label, argv = commands(rng, text)
         channel = rng.choice(["stdin", "file"])
         wal(f"inp {spec['seed']}:{i} {argv!r}")
-        got = run_inprocess(text, argv, channel)
+        form = "after-command"
+        if channel == "file" and rng.random() < 0.3:
+            form = rng.choice(["at-end", "before-command"])
+        got = run_inprocess(text, argv, channel, form)
         res["evaluations"] += 1
         obs["inprocess_runs"] += 1
-        judge(kind, text, label, argv, channel, got, "inprocess")
+        if form != "after-command":
+            # another place for `-f FILE`: either a usage error (exit 2, nothing on stdout) or the
+            # very result for FILE - never a result for some other input
+            B.bump(obs.setdefault("argument_forms", {}), form)
+            if got[1] == 2 and got[0] == "":
+                B.bump(obs.setdefault("argument_forms", {}), form + ":usage-error")
+                continue
+        judge(kind, text, label, argv, channel, got, "inprocess" if form == "after-command" else "inprocess:" + form)
     # redirect-over-file loop
     for i in range(spec["loops"]):
         g = canon.DocGen(rng, hyphen=False, max_entries=4)
